@@ -190,6 +190,45 @@ def install():
         if rec is not None and rec.enabled and not session.in_transaction():
             rec.rollback(session)
 
+    # overlap windows (prims.TxLock): the first write of a transaction is
+    # announced to the lock, and a transaction that was parked while another
+    # one committed on the shared connection gets its BEGIN back
+    from mistralsim import core as _core
+    from mistralsim import prims as _prims
+
+    @event.listens_for(m.db_base.get_engine(), 'before_cursor_execute')
+    def before_cursor_execute(conn, cursor, statement, parameters, context,
+                              executemany):
+        lock = m.db_base.tx_lock
+        if not isinstance(lock, _prims.TxLock):
+            return
+        sim = _core.current()
+        me = sim.me() if sim else None
+        if me is None or lock.owner is not me:
+            return
+        st = statement.lstrip()[:6].upper()
+        if st in ('INSERT', 'UPDATE', 'DELETE'):
+            lock.before_first_write(st)
+        if st in ('BEGIN', 'PRAGMA') or not lock.windows:
+            return
+        try:
+            dbapi = conn.connection.dbapi_connection
+        except Exception:
+            return
+        if not dbapi.in_transaction:
+            cursor.execute('BEGIN')
+            conn.info['in_transaction'] = True
+
+    orig_acquire = m.sqlite_lock.acquire_lock
+
+    def acquire_lock(obj_id, session):
+        lock = m.db_base.tx_lock
+        if isinstance(lock, _prims.TxLock):
+            lock.before_first_write('lock')
+        return orig_acquire(obj_id, session)
+
+    m.sqlite_lock.acquire_lock = acquire_lock
+
     # compare-and-swap facade functions
     sa_api = m.sa_api
 
